@@ -93,8 +93,11 @@ impl Outcome {
 pub enum Expect {
     Ok,
     Err(ErrClass),
-    /// Either is within the contract (only: Euler's documented no-op `with_tolerance` given a
-    /// non-positive value, DESIGN §3.7).
+    /// Either is within the contract. Two uses, both for Euler, whose builder has a single step
+    /// length: its documented no-op `with_tolerance` given a non-positive value (DESIGN §3.7), and
+    /// `solve()` when the step length was only ever given through `with_minimum_dt` (whether
+    /// that alone makes the configuration complete is the implementation's choice; the shipped
+    /// documentation only shows `with_maximum_dt`).
     OkOrErr(ErrClass),
 }
 
@@ -199,7 +202,11 @@ impl Model {
             // B5
             BOp::Solve => {
                 if self.complete() {
-                    Expect::Ok
+                    if self.euler && !self.max {
+                        Expect::OkOrErr(ErrClass::Missing)
+                    } else {
+                        Expect::Ok
+                    }
                 } else {
                     Expect::Err(ErrClass::Missing)
                 }
